@@ -70,6 +70,8 @@ structure DF (F : Type) where
 
 structure Cfg where
   guards : Bool := true
+  /-- number of lines the sniffer inspects (`const std::size_t lines(20)` in `pocket_csv::sniffer`) -/
+  sniffLines : Nat := 20
 
 /-! ### class encoding -/
 
@@ -221,9 +223,9 @@ structure Params where
 
 /-- the dialect `read_csv` ends up with: the sniffer runs when the header or the delimiter
     is left open, and it always judges the header with the delimiter *it* guessed -/
-def resolveDialect {F} (o : NumOracle F) (p : Params) (lines : List Str) : Char × Bool :=
+def resolveDialect {F} (cfg : Cfg) (o : NumOracle F) (p : Params) (lines : List Str) : Char × Bool :=
   if p.header.isNone || p.delim = '\x00' then
-    let s := sniffer o lines
+    let s := sniffer o cfg.sniffLines lines
     (if p.delim = '\x00' then s.1 else p.delim, match p.header with | none => s.2 | some h => h)
   else (p.delim, p.header.getD false)
 
@@ -260,7 +262,7 @@ def readCsvRecs {F} (cfg : Cfg) (o : NumOracle F) (outIdx : Option Nat) (hasHdr 
 /-- `dataframe::read_csv(std::istream &, params)` on a fresh dataframe -/
 def readCsv {F} (cfg : Cfg) (o : NumOracle F) (p : Params) (bytes : Str) : M (DF F) :=
   let lines := splitLines bytes
-  let (d, h) := resolveDialect o p lines
+  let (d, h) := resolveDialect cfg o p lines
   readCsvRecs cfg o p.outIdx h (records { delim := d, trimWs := p.trimWs } p.filter lines)
 
 /-! ### `read_xrff` from the parsed document -/
